@@ -450,7 +450,7 @@ Proof. intro H; inversion H; reflexivity. Qed.
 
 Theorem step_sinv st e st' : SInv st -> step st e = ROk st' -> SInv st'.
 Proof.
-  intros H. destruct e as [c adm|c b totals|order|s b|c|s| |s]; cbn [step].
+  intros H. destruct e as [c adm|c b totals|order|s b|c|s| |s|nodes newslots]; cbn [step].
   - destruct (lookup c (clients st)); intro E; apply ROk_inj in E; subst st'; [exact H|].
     eapply SInv_same; [apply same_s_set_client | exact H].
   - intro E; apply ROk_inj in E; subst st'. apply ensure_dials_sinv. unfold client_data.
@@ -462,7 +462,11 @@ Proof.
   - intro E; apply ROk_inj in E; subst st'. apply (run_task_sinv st (fun _ => []) (TClose s)), H.
   - intro E; apply ROk_inj in E; subst st'. unfold timeout_scan.
     eapply SInv_same; [eapply same_s_trans; [apply same_s_expire | apply same_s_set_inflight] | exact H].
-  - intro E; apply ROk_inj in E; subst st'. eapply SInv_same; [apply same_s_set_tasks | exact H].
+  - destruct (find_pool st s) as [p|]; [|intro E; apply ROk_inj in E; subst st'; exact H].
+    destruct (pool_get st p) as [st1 [s1|]] eqn:Eg; destruct (pool_get_sinv _ _ _ _ H Eg) as (A & _); intro E; apply ROk_inj in E; subst st'.
+    + eapply SInv_same; [apply same_s_set_tasks | exact A].
+    + exact A.
+  - intro E; apply ROk_inj in E; subst st'. eapply SInv_same; [|exact H]. repeat split.
 Qed.
 
 Theorem run_sinv evs : forall st st', SInv st -> run st evs = ROk st' -> SInv st'.
